@@ -3,6 +3,8 @@ CONSTANTS MaxRuns = 3 MaxTouch = 2
   Scens <- ScenQuickMC
   Settings <- SettingsQuick
   CreatedSetsChanged = TRUE
+  Reuses = {FALSE, TRUE}
+  AutoReload = TRUE
   KeepHistory = FALSE
 VIEW view
 INVARIANT TypeOK
